@@ -36,7 +36,7 @@ namespace {
 
 #define SITE __builtin_return_address(0)
 
-#ifndef HX_REF_REAL_BETA
+#ifndef HX_REAL_BETA
 void ref_beta(double * Q, double * Z, double * tc, double * th, double * td)
 {
   int o = push(hx::K_BETA, {*Q, *Z, *tc, *th}, {}, SITE);
@@ -58,7 +58,7 @@ void ref_beta_1fu(double * Q, double * Z, double * tc, double * th, double * td,
   finish(99, o, 1, *tc, td, true);
 }
 #endif
-#ifndef HX_REF_REAL_NUCLTRANS
+#ifndef HX_REAL_NTK
 void ref_nucltransk(double * E, double * Eb, double * ce, double * cp, double * tc, double * th, double * td)
 {
   int o = push(hx::K_NTK, {*E, *Eb, *ce, *cp, *tc, *th}, {}, SITE);
@@ -80,7 +80,7 @@ void ref_nucltransklm_pb(double * E, double * EbK, double * ceK, double * EbL, d
   finish(99, o, 1, *tc, td, false);
 }
 #endif
-#ifndef HX_REF_REAL_PARTICLES
+#ifndef HX_REAL_PARTICLES
 void ref_gamma(double * E, double * tc, double * th, double * td)
 {
   int o = push(hx::K_GAMMA, {*E, *tc, *th}, {}, SITE);
